@@ -4,6 +4,7 @@ import (
 	"encoding/binary"
 	"encoding/json"
 	"errors"
+	"flag"
 	"fmt"
 	"os"
 	"path/filepath"
@@ -19,26 +20,44 @@ import (
 )
 
 // c19Version: Kind is "nil", "ok" or "fail"; ID is the effect key the
-// migration writes into the namespace.
+// migration writes into the namespace ("fail": writes it, then returns an error).
 type c19Version struct {
 	Num  uint32 `json:"num"`
 	Kind string `json:"kind"`
 	ID   uint32 `json:"id"`
 }
 
-type c19Input struct {
-	Versions []c19Version `json:"versions"`
-	Stored   uint32       `json:"stored"`
-	Data     []uint32     `json:"data"`
+// c19Svc is one service handed to migration.Upgrade: its version table, the
+// state of its namespace, and whether its SetVersion fails.
+type c19Svc struct {
+	Versions  []c19Version `json:"versions"`
+	Stored    uint32       `json:"stored"`
+	Data      []uint32     `json:"data"`
+	SetvFails bool         `json:"setv_fails,omitempty"`
 }
 
-type c19Obs struct {
-	Outcome  string   `json:"outcome"` // ok | reversion | migfail:<n> | other:<msg>
+// c19Input: Upgrade(mgrs...) inside one walletdb.Update.  (Replay files of
+// the single-service format {"versions","stored","data"} are still read.)
+type c19Input struct {
+	Mgrs []c19Svc `json:"mgrs"`
+	// legacy single-service fields
+	Versions []c19Version `json:"versions,omitempty"`
+	Stored   uint32       `json:"stored,omitempty"`
+	Data     []uint32     `json:"data,omitempty"`
+}
+
+type c19SvcObs struct {
 	Invoked  []uint32 `json:"invoked"`
 	StoredTx uint32   `json:"stored_in_tx"`
 	Stored   uint32   `json:"stored"` // after the enclosing Update returned
 	Data     []uint32 `json:"data"`   // namespace effect log after the Update returned
 	SetCalls int      `json:"set_version_calls"`
+}
+
+type c19Obs struct {
+	Outcome string      `json:"outcome"` // ok | reversion | migfail:<n> | setvfail | other:<msg>
+	FailMgr int         `json:"failing_mgr"`
+	Mgrs    []c19SvcObs `json:"mgrs"`
 }
 
 type c19Case struct {
@@ -51,21 +70,23 @@ type c19Case struct {
 }
 
 var (
-	c19NS      = []byte("svc")
 	c19VerKey  = []byte("version")
 	c19DataBkt = []byte("data")
 )
 
+func c19NS(i int) []byte { return []byte(fmt.Sprintf("svc%d", i)) }
+
 type c19Mgr struct {
+	idx      int
 	ns       walletdb.ReadWriteBucket
 	versions []migration.Version
-	invoked  *[]uint32
 	setCalls *int
+	setFails bool
 }
 
-func (m *c19Mgr) Name() string                          { return "svc" }
-func (m *c19Mgr) Namespace() walletdb.ReadWriteBucket   { return m.ns }
-func (m *c19Mgr) Versions() []migration.Version         { return m.versions }
+func (m *c19Mgr) Name() string                        { return fmt.Sprintf("svc%d", m.idx) }
+func (m *c19Mgr) Namespace() walletdb.ReadWriteBucket { return m.ns }
+func (m *c19Mgr) Versions() []migration.Version       { return m.versions }
 func (m *c19Mgr) CurrentVersion(ns walletdb.ReadBucket) (uint32, error) {
 	if ns == nil {
 		ns = m.ns
@@ -78,14 +99,24 @@ func (m *c19Mgr) CurrentVersion(ns walletdb.ReadBucket) (uint32, error) {
 }
 func (m *c19Mgr) SetVersion(ns walletdb.ReadWriteBucket, v uint32) error {
 	*m.setCalls++
+	if m.setFails {
+		return c19SetvErr{m.idx}
+	}
 	var b [4]byte
 	binary.BigEndian.PutUint32(b[:], v)
 	return ns.Put(c19VerKey, b[:])
 }
 
-type c19MigErr struct{ n uint32 }
+type c19MigErr struct {
+	mgr int
+	n   uint32
+}
 
-func (e c19MigErr) Error() string { return fmt.Sprintf("migration %d failed", e.n) }
+func (e c19MigErr) Error() string { return fmt.Sprintf("service %d: migration %d failed", e.mgr, e.n) }
+
+type c19SetvErr struct{ mgr int }
+
+func (e c19SetvErr) Error() string { return fmt.Sprintf("service %d: SetVersion failed", e.mgr) }
 
 func c19AppendData(ns walletdb.ReadWriteBucket, id uint32) error {
 	b, err := ns.CreateBucketIfNotExists(c19DataBkt)
@@ -116,8 +147,26 @@ func c19ReadData(ns walletdb.ReadBucket) []uint32 {
 	return out
 }
 
+func (in *c19Input) normalize() {
+	if len(in.Mgrs) == 0 {
+		in.Mgrs = []c19Svc{{Versions: in.Versions, Stored: in.Stored, Data: in.Data}}
+	}
+	in.Versions, in.Stored, in.Data = nil, 0, nil
+	for i := range in.Mgrs {
+		if in.Mgrs[i].Versions == nil {
+			in.Mgrs[i].Versions = []c19Version{}
+		}
+		if in.Mgrs[i].Data == nil {
+			in.Mgrs[i].Data = []uint32{}
+		}
+	}
+}
+
 func c19Run(dir string, in c19Input) (c19Obs, error) {
-	obs := c19Obs{Invoked: []uint32{}}
+	obs := c19Obs{FailMgr: -1, Mgrs: make([]c19SvcObs, len(in.Mgrs))}
+	for i := range obs.Mgrs {
+		obs.Mgrs[i].Invoked = []uint32{}
+	}
 	path := filepath.Join(dir, "c19.db")
 	os.Remove(path)
 	db, err := walletdb.Create("bdb", path, true, time.Minute, false)
@@ -128,18 +177,20 @@ func c19Run(dir string, in c19Input) (c19Obs, error) {
 
 	// initial state
 	err = walletdb.Update(db, func(tx walletdb.ReadWriteTx) error {
-		ns, err := tx.CreateTopLevelBucket(c19NS)
-		if err != nil {
-			return err
-		}
-		var b [4]byte
-		binary.BigEndian.PutUint32(b[:], in.Stored)
-		if err := ns.Put(c19VerKey, b[:]); err != nil {
-			return err
-		}
-		for _, d := range in.Data {
-			if err := c19AppendData(ns, d); err != nil {
+		for i, s := range in.Mgrs {
+			ns, err := tx.CreateTopLevelBucket(c19NS(i))
+			if err != nil {
 				return err
+			}
+			var b [4]byte
+			binary.BigEndian.PutUint32(b[:], s.Stored)
+			if err := ns.Put(c19VerKey, b[:]); err != nil {
+				return err
+			}
+			for _, d := range s.Data {
+				if err := c19AppendData(ns, d); err != nil {
+					return err
+				}
 			}
 		}
 		return nil
@@ -148,139 +199,193 @@ func c19Run(dir string, in c19Input) (c19Obs, error) {
 		return obs, err
 	}
 
-	setCalls := 0
+	// the call under test: ONE walletdb.Update around ONE Upgrade(mgrs...)
+	// whose error the closure returns
 	uerr := walletdb.Update(db, func(tx walletdb.ReadWriteTx) error {
-		ns := tx.ReadWriteBucket(c19NS)
-		vs := make([]migration.Version, len(in.Versions))
-		for i, v := range in.Versions {
-			v := v
-			vs[i].Number = v.Num
-			switch v.Kind {
-			case "nil":
-			case "ok":
-				vs[i].Migration = func(b walletdb.ReadWriteBucket) error {
-					obs.Invoked = append(obs.Invoked, v.Num)
-					return c19AppendData(b, v.ID)
-				}
-			case "fail":
-				vs[i].Migration = func(b walletdb.ReadWriteBucket) error {
-					obs.Invoked = append(obs.Invoked, v.Num)
-					if err := c19AppendData(b, v.ID); err != nil {
-						return err
+		mgrs := make([]migration.Manager, len(in.Mgrs))
+		own := make([]*c19Mgr, len(in.Mgrs))
+		for i, s := range in.Mgrs {
+			i := i
+			vs := make([]migration.Version, len(s.Versions))
+			for j, v := range s.Versions {
+				v := v
+				vs[j].Number = v.Num
+				switch v.Kind {
+				case "nil":
+				case "ok":
+					vs[j].Migration = func(b walletdb.ReadWriteBucket) error {
+						obs.Mgrs[i].Invoked = append(obs.Mgrs[i].Invoked, v.Num)
+						return c19AppendData(b, v.ID)
 					}
-					return c19MigErr{v.Num}
+				case "fail":
+					vs[j].Migration = func(b walletdb.ReadWriteBucket) error {
+						obs.Mgrs[i].Invoked = append(obs.Mgrs[i].Invoked, v.Num)
+						if err := c19AppendData(b, v.ID); err != nil {
+							return err
+						}
+						return c19MigErr{i, v.Num}
+					}
 				}
 			}
+			own[i] = &c19Mgr{idx: i, ns: tx.ReadWriteBucket(c19NS(i)), versions: vs,
+				setCalls: &obs.Mgrs[i].SetCalls, setFails: s.SetvFails}
+			mgrs[i] = own[i]
 		}
-		m := &c19Mgr{ns: ns, versions: vs, invoked: &obs.Invoked, setCalls: &setCalls}
-		err := migration.Upgrade(m)
-		cur, _ := m.CurrentVersion(ns)
-		obs.StoredTx = cur
+		err := migration.Upgrade(mgrs...)
+		for i, m := range own {
+			obs.Mgrs[i].StoredTx, _ = m.CurrentVersion(nil)
+		}
 		return err
 	})
-	obs.SetCalls = setCalls
 	var me c19MigErr
+	var se c19SetvErr
 	switch {
 	case uerr == nil:
 		obs.Outcome = "ok"
 	case errors.Is(uerr, migration.ErrReversion):
 		obs.Outcome = "reversion"
 	case errors.As(uerr, &me):
-		obs.Outcome = fmt.Sprintf("migfail:%d", me.n)
+		obs.Outcome, obs.FailMgr = fmt.Sprintf("migfail:%d", me.n), me.mgr
+	case errors.As(uerr, &se):
+		obs.Outcome, obs.FailMgr = "setvfail", se.mgr
 	default:
 		obs.Outcome = "other:" + uerr.Error()
 	}
 	err = walletdb.View(db, func(tx walletdb.ReadTx) error {
-		ns := tx.ReadBucket(c19NS)
-		obs.Stored = binary.BigEndian.Uint32(ns.Get(c19VerKey))
-		obs.Data = c19ReadData(ns)
+		for i := range in.Mgrs {
+			ns := tx.ReadBucket(c19NS(i))
+			obs.Mgrs[i].Stored = binary.BigEndian.Uint32(ns.Get(c19VerKey))
+			obs.Mgrs[i].Data = c19ReadData(ns)
+		}
 		return nil
 	})
 	return obs, err
 }
 
-// c19Oracle states the property directly on the observation.
-func c19Oracle(in c19Input, o c19Obs) []string {
-	var bad []string
-	latest := uint32(0)
-	for _, v := range in.Versions {
-		if v.Num > latest {
-			latest = v.Num
+func sameList(a, b []uint32) bool {
+	if len(a) != len(b) {
+		return false
+	}
+	for i := range a {
+		if a[i] != b[i] {
+			return false
 		}
 	}
-	// pending numbers ascending (non-nil only are observable)
+	return true
+}
+
+func isPrefix(a, b []uint32) bool { return len(a) <= len(b) && sameList(a, b[:len(a)]) }
+
+func latestOfSvc(s c19Svc) uint32 {
+	l := uint32(0)
+	for _, v := range s.Versions {
+		if v.Num > l {
+			l = v.Num
+		}
+	}
+	return l
+}
+
+// wantInvoked: the non-nil entries numbered above the stored version,
+// ascending, up to and including the first failing one.
+func wantInvoked(s c19Svc) (want []uint32, failed bool) {
 	var pend []c19Version
-	for _, v := range in.Versions {
-		if v.Num > in.Stored {
+	for _, v := range s.Versions {
+		if v.Num > s.Stored {
 			pend = append(pend, v)
 		}
 	}
 	sort.SliceStable(pend, func(i, j int) bool { return pend[i].Num < pend[j].Num })
-	same := func(a, b []uint32) bool {
-		if len(a) != len(b) {
-			return false
+	want = []uint32{}
+	for _, v := range pend {
+		if v.Kind == "nil" {
+			continue
 		}
-		for i := range a {
-			if a[i] != b[i] {
-				return false
-			}
+		want = append(want, v.Num)
+		if v.Kind == "fail" {
+			return want, true
 		}
-		return true
 	}
-	switch {
-	case in.Stored > latest:
-		if o.Outcome != "reversion" {
-			bad = append(bad, "newer_database_not_refused")
-		}
-		if len(o.Invoked) != 0 || o.SetCalls != 0 {
-			bad = append(bad, "newer_database_modified")
-		}
-	default:
-		want := []uint32{}
-		failed := false
-		for _, v := range pend {
-			if v.Kind == "nil" {
-				continue
-			}
-			want = append(want, v.Num)
-			if v.Kind == "fail" {
-				failed = true
-				break
+	return want, false
+}
+
+// c19Oracle states the property directly on the observation.  Nothing is
+// demanded about the order in which the services of one call are upgraded.
+func c19Oracle(in c19Input, o c19Obs) []string {
+	var bad []string
+	add := func(k string) {
+		for _, b := range bad {
+			if b == k {
+				return
 			}
 		}
-		if !same(want, o.Invoked) {
-			bad = append(bad, "invoked_migrations_not_exactly_pending_in_order")
+		bad = append(bad, k)
+	}
+	newer, mustFail := false, false
+	for _, s := range in.Mgrs {
+		l := latestOfSvc(s)
+		if s.Stored > l {
+			newer = true
+		} else if s.Stored < l {
+			if _, f := wantInvoked(s); f || s.SetvFails {
+				mustFail = true
+			}
 		}
-		if failed {
-			if o.Outcome == "ok" {
-				bad = append(bad, "failed_migration_reported_success")
+	}
+	if newer {
+		if o.Outcome == "ok" {
+			add("newer_database_not_refused")
+		}
+		for i, s := range in.Mgrs {
+			if o.Mgrs[i].Stored != s.Stored || !sameList(o.Mgrs[i].Data, s.Data) {
+				add("newer_database_modified")
 			}
-		} else {
-			if o.Outcome != "ok" {
-				bad = append(bad, "clean_upgrade_reported_error")
-			} else if o.Stored != latest {
-				bad = append(bad, "latest_version_not_recorded")
+		}
+	}
+	for i, s := range in.Mgrs {
+		l := latestOfSvc(s)
+		if s.Stored > l {
+			if len(o.Mgrs[i].Invoked) != 0 || o.Mgrs[i].SetCalls != 0 {
+				add("newer_database_modified")
 			}
+			continue
+		}
+		want, _ := wantInvoked(s)
+		exact := o.Outcome == "ok" || o.FailMgr == i
+		if exact && !sameList(want, o.Mgrs[i].Invoked) || !exact && !isPrefix(o.Mgrs[i].Invoked, want) {
+			add("invoked_migrations_not_exactly_pending_in_order")
+		}
+		if o.Outcome == "ok" && o.Mgrs[i].Stored != l {
+			add("latest_version_not_recorded")
+		}
+	}
+	if !newer {
+		if mustFail && o.Outcome == "ok" {
+			add("failed_migration_reported_success")
+		}
+		if !mustFail && o.Outcome != "ok" {
+			add("clean_upgrade_reported_error")
 		}
 	}
 	if o.Outcome != "ok" {
-		if o.Stored != in.Stored {
-			bad = append(bad, "version_changed_on_error")
-		}
-		if !same(o.Data, in.Data) {
-			bad = append(bad, "data_changed_on_error")
+		for i, s := range in.Mgrs {
+			if o.Mgrs[i].Stored != s.Stored {
+				add("version_changed_on_error")
+			}
+			if !sameList(o.Mgrs[i].Data, s.Data) {
+				add("data_changed_on_error")
+			}
 		}
 	}
 	return bad
 }
 
-func c19Gen(r *gen.R) (c19Input, []string) {
-	var in c19Input
+func c19GenSvc(r *gen.R, nextID *uint32) (c19Svc, []string) {
+	var s c19Svc
 	var tags []string
-	in.Versions = []c19Version{}
+	s.Versions = []c19Version{}
 	n := r.Pick(1, 2, 3, 4, 4, 3, 2, 1) // 0..7 entries
 	nums := map[uint32]bool{}
-	nextID := uint32(100)
 	hasFail, hasNil := false, false
 	for i := 0; i < n; i++ {
 		var num uint32
@@ -302,39 +407,38 @@ func c19Gen(r *gen.R) (c19Input, []string) {
 		if kind == "nil" {
 			hasNil = true
 		}
-		nextID++
-		in.Versions = append(in.Versions, c19Version{Num: num, Kind: kind, ID: nextID})
+		*nextID++
+		s.Versions = append(s.Versions, c19Version{Num: num, Kind: kind, ID: *nextID})
 	}
 	// duplicate numbers: only nil duplicates (sort.Slice is not stable, so
 	// the relative order of equal numbers is unspecified in the code)
 	if n > 0 && r.Chance(1, 8) {
-		v := in.Versions[r.Intn(n)]
+		v := s.Versions[r.Intn(n)]
 		if v.Kind == "nil" {
-			in.Versions = append(in.Versions, c19Version{Num: v.Num, Kind: "nil", ID: 0})
+			s.Versions = append(s.Versions, c19Version{Num: v.Num, Kind: "nil", ID: 0})
 			tags = append(tags, "dup_nil")
 		}
 	}
-	latest := uint32(0)
-	for _, v := range in.Versions {
-		if v.Num > latest {
-			latest = v.Num
-		}
-	}
+	latest := latestOfSvc(s)
 	switch r.Pick(5, 2, 2, 1) {
 	case 0:
-		in.Stored = uint32(r.Range(0, int(min64(int64(latest), 13))))
+		s.Stored = uint32(r.Range(0, int(min64(int64(latest), 13))))
 	case 1:
-		in.Stored = latest
+		s.Stored = latest
 	case 2:
-		in.Stored = latest + uint32(r.Range(1, 3))
+		s.Stored = latest + uint32(r.Range(1, 3))
 	case 3:
-		in.Stored = 0
+		s.Stored = 0
 	}
-	in.Data = []uint32{}
+	s.Data = []uint32{}
 	for i := r.Range(0, 3); i > 0; i-- {
-		in.Data = append(in.Data, uint32(r.Range(1, 50)))
+		s.Data = append(s.Data, uint32(r.Range(1, 50)))
 	}
-	sorted := sort.SliceIsSorted(in.Versions, func(i, j int) bool { return in.Versions[i].Num < in.Versions[j].Num })
+	if r.Chance(1, 10) {
+		s.SetvFails = true
+		tags = append(tags, "setversion_fails")
+	}
+	sorted := sort.SliceIsSorted(s.Versions, func(i, j int) bool { return s.Versions[i].Num < s.Versions[j].Num })
 	if !sorted {
 		tags = append(tags, "unordered")
 	}
@@ -345,13 +449,33 @@ func c19Gen(r *gen.R) (c19Input, []string) {
 		tags = append(tags, "has_nil")
 	}
 	switch {
-	case in.Stored > latest:
+	case s.Stored > latest:
 		tags = append(tags, "stored_above")
-	case in.Stored == latest:
+	case s.Stored == latest:
 		tags = append(tags, "stored_at")
 	default:
 		tags = append(tags, "stored_below")
 	}
+	return s, tags
+}
+
+func c19Gen(r *gen.R) (c19Input, []string) {
+	var in c19Input
+	nextID := uint32(100)
+	n := 1 + r.Pick(6, 3, 1) // 1..3 services
+	tagset := map[string]bool{}
+	for i := 0; i < n; i++ {
+		s, tags := c19GenSvc(r, &nextID)
+		in.Mgrs = append(in.Mgrs, s)
+		for _, t := range tags {
+			tagset[t] = true
+		}
+	}
+	tags := []string{fmt.Sprintf("services_%d", n)}
+	for t := range tagset {
+		tags = append(tags, t)
+	}
+	sort.Strings(tags)
 	return in, tags
 }
 
@@ -363,13 +487,20 @@ func min64(a, b int64) int64 {
 }
 
 func main() {
-	core.Main("c19", nil, func(c *core.Common, out *core.Emitter) error {
+	probe := false
+	core.Main("c19", func(fs *flag.FlagSet) {
+		fs.BoolVar(&probe, "probe", false, "determine the facts of Generated/MigrateFacts.v behaviourally and print them")
+	}, func(c *core.Common, out *core.Emitter) error {
 		dir, err := os.MkdirTemp("", "vh-c19-")
 		if err != nil {
 			return err
 		}
 		defer os.RemoveAll(dir)
+		if probe {
+			return runProbe(dir)
+		}
 		runOne := func(in c19Input, tags []string) error {
+			in.normalize()
 			obs, err := c19Run(dir, in)
 			if err != nil {
 				return err
@@ -378,7 +509,30 @@ func main() {
 			return nil
 		}
 		if c.Replay != "" {
+			var renv *realEnv
+			defer func() {
+				if renv != nil {
+					renv.close()
+				}
+			}()
 			return core.ReadReplay(c.Replay, func(raw json.RawMessage) error {
+				var rs struct {
+					In realIn `json:"in"`
+				}
+				if err := json.Unmarshal(raw, &rs); err == nil && rs.In.Real != "" {
+					if renv == nil {
+						if renv, err = newRealEnv(); err != nil {
+							return err
+						}
+					}
+					rc, err := renv.runReal(rs.In)
+					if err != nil {
+						return err
+					}
+					rc.Tags = append(rc.Tags, "replay")
+					out.Emit(rc)
+					return nil
+				}
 				var cs struct {
 					In c19Input `json:"in"`
 				}
@@ -388,27 +542,57 @@ func main() {
 				return runOne(cs.In, []string{"replay"})
 			})
 		}
-		// The real migration managers of wtxmgr and waddrmgr through
-		// wallet.Open (one database transaction for both components).
-		if err := realCases(out); err != nil {
+		// The real migration managers of wtxmgr and waddrmgr: through
+		// wallet.Open, through migration.Upgrade, and their own Open.
+		if err := realCases(out, c.Tier == "thorough"); err != nil {
 			return err
 		}
 		r := gen.New(c.Seed, 19)
-		// Systematic part: a failure injected at every position of a fixed
+		// Systematic part 1: a failure injected at every position of a fixed
 		// unordered table, for every stored version around the range.
 		base := []c19Version{{5, "ok", 1}, {2, "nil", 2}, {9, "ok", 3}, {3, "ok", 4}, {7, "ok", 5}, {1, "ok", 6}}
 		for pos := -1; pos < len(base); pos++ {
 			for stored := uint32(0); stored <= 11; stored++ {
 				vs := append([]c19Version{}, base...)
-				tags := []string{"systematic"}
 				if pos >= 0 {
 					if vs[pos].Kind == "nil" {
 						continue
 					}
 					vs[pos].Kind = "fail"
 				}
-				if err := runOne(c19Input{Versions: vs, Stored: stored, Data: []uint32{42}}, tags); err != nil {
+				in := c19Input{Mgrs: []c19Svc{{Versions: vs, Stored: stored, Data: []uint32{42}}}}
+				if err := runOne(in, []string{"systematic", "services_1"}); err != nil {
 					return err
+				}
+			}
+		}
+		// Systematic part 2: two services in one call; a failing migration at
+		// every position of either table, or a failing SetVersion of either,
+		// for stored versions below, inside, at and above each table.
+		ta := []c19Version{{4, "ok", 11}, {2, "ok", 12}, {6, "ok", 13}}
+		tb := []c19Version{{3, "ok", 21}, {1, "nil", 22}, {8, "ok", 23}, {5, "ok", 24}}
+		for pos := -3; pos < len(ta)+len(tb); pos++ {
+			for _, sa := range []uint32{0, 3, 6, 7} {
+				for _, sb := range []uint32{0, 4, 8, 9} {
+					a := c19Svc{Versions: append([]c19Version{}, ta...), Stored: sa, Data: []uint32{7}}
+					b := c19Svc{Versions: append([]c19Version{}, tb...), Stored: sb, Data: []uint32{}}
+					switch {
+					case pos == -2:
+						a.SetvFails = true
+					case pos == -1:
+						b.SetvFails = true
+					case pos >= 0 && pos < len(ta):
+						a.Versions[pos].Kind = "fail"
+					case pos >= len(ta):
+						if b.Versions[pos-len(ta)].Kind == "nil" {
+							continue
+						}
+						b.Versions[pos-len(ta)].Kind = "fail"
+					}
+					in := c19Input{Mgrs: []c19Svc{a, b}}
+					if err := runOne(in, []string{"systematic", "services_2"}); err != nil {
+						return err
+					}
 				}
 			}
 		}
